@@ -103,6 +103,9 @@ func cmdFunc(args []string) int {
 			if r.Status == "failed" {
 				fmt.Printf("          model: %s\n", modelSummary(r.Model, 14))
 			}
+			if r.Status == "unknown" && strings.Contains(r.Raw, "error") {
+				fmt.Printf("          solver said: %s\n", truncateStr(r.Raw, 300))
+			}
 		}
 		if *dump != "" && strings.Contains(r.Obl.Name, *dump) {
 			s, _, _ := x.buildQuery(r.Obl, true, false)
@@ -148,7 +151,3 @@ func modelSummary(m map[string]string, n int) string {
 	return strings.Join(out, " ")
 }
 
-func cmdCheck(args []string) int {
-	fmt.Fprintln(os.Stderr, "check: not built yet")
-	return 2
-}
